@@ -666,6 +666,27 @@ func checkC09(c *core.Ctx) {
 		{[]string{"write", "parse"}, "- chord: {degree: \"1\", name: m7, base: ~}\n  values: [1]\n"},
 		{[]string{"info", "attr", "describe", "-t", "Major3", "-r", "D♭"}, ""}, {[]string{"info", "attr", "describe", "-t", "Major3", "-r", "xF"}, ""}, {[]string{"info", "attr", "describe", "-t", "Major3", "-r", "C##"}, ""}, {[]string{"info", "attr", "describe", "-t", "Major3", "-r", ""}, ""},
 	}
+	// F-48: a merge key next to a mapping or sequence used as a key makes yaml.v3 panic instead of returning an error
+	{
+		docs := []string{"- values: [1]\n  meta:\n    <<: {a: b}\n    ? {c: d}\n    : e\n", "- values: [1]\n  meta:\n    <<: {a: b}\n    ? [c, d]\n    : e\n",
+			"- chord: {degree: \"1\", name: m7}\n  values: [1]\n  <<: {bpm: 90}\n  ? {x: y}\n  : z\n", "- <<: {values: [1]}\n  ? [a]\n  : b\n"}
+		for _, d := range docs {
+			for _, a := range [][]string{{"write"}, {"write", "event"}, {"write", "parse"}, {"write", "conv", "-c", "cmt"}} {
+				edges = append(edges, struct {
+					args  []string
+					stdin string
+				}{a, d})
+			}
+		}
+		cf := c.Scratch.File("merge-complex-chord.yml", []byte("- name: Zx\n  meta:\n    <<: {display: zx}\n    ? {c: d}\n    : e\n  attributes: [Perfect1]\n"))
+		af := c.Scratch.File("merge-complex-attr.yml", []byte("- name: Za\n  <<: {degree: \"3\"}\n  ? [c, d]\n  : e\n"))
+		for _, a := range [][]string{{"info", "chord", "list", "--chord", cf}, {"write", "--chord", cf}, {"info", "attr", "list", "--attr", af}, {"info", "attr", "describe", "-t", "Za", "--attr", af}, {"write", "parse", "--attr", af}} {
+			edges = append(edges, struct {
+				args  []string
+				stdin string
+			}{a, "- chord: {degree: \"1\", name: m7}\n  values: [1]\n"})
+		}
+	}
 	// --port values that look like numbers
 	for _, v := range []string{"0", "1", "+1", "-1", "-7", "2", "00", "1e0", "9223372036854775807", "-9223372036854775808"} {
 		edges = append(edges, struct {
